@@ -11,13 +11,21 @@ import (
 //   vhfmt probe '{"line_width":20}' < x.vcl
 func probe(args []string) int {
 	c := defaultCfg
-	if len(args) > 0 {
+	if len(args) > 0 && args[0] != "lint" {
 		if err := json.Unmarshal([]byte(args[0]), &c); err != nil {
 			fmt.Fprintln(os.Stderr, err)
 			return 2
 		}
 	}
 	b, _ := io.ReadAll(os.Stdin)
+	if len(args) > 0 && args[0] == "lint" {
+		obs, perr := lintObs(string(b))
+		fmt.Println("parse:", perr)
+		for _, o := range obs {
+			fmt.Println(o)
+		}
+		return 0
+	}
 	v, err := parseVCL(string(b))
 	if err != nil {
 		fmt.Println("PARSE:", err)
